@@ -31,6 +31,12 @@ class Local(FileSystem):
         t = Tokenizer(expr)
         prefix = t.get_next(['*', '?'])
 
+        if not prefix:
+            # a relative expression that starts with a wildcard:
+            # search below the current directory
+            expr = '.' + os.path.sep + expr
+            prefix = '.' + os.path.sep
+
         if not any(prefix.endswith(sep) for sep in os_sep) and any(sep in prefix for sep in os_sep):
             prefix = os.path.dirname(prefix)
 
